@@ -138,8 +138,16 @@ func run() int {
 	// 1. rebuild the worker from /repo's current working tree
 	worker = filepath.Join(workDir, "worker")
 	if out, err := goBuild(worker, "-tags", "verif", "./worker"); err != nil {
-		fmt.Printf("BROKEN property=%s: worker does not build against /repo's working tree:\n%s\n", prop, out)
-		return 2
+		// Fall back to this property's own files: another driver that no longer compiles
+		// against /repo's working tree must not take this check down with it.
+		files, _ := filepath.Glob(filepath.Join(verifRoot, "harness", "worker", "*util*.go"))
+		own, _ := filepath.Glob(filepath.Join(verifRoot, "harness", "worker", strings.ToLower(prop)+"*.go"))
+		files = append(append([]string{filepath.Join(verifRoot, "harness", "worker", "main.go")}, files...), own...)
+		if out2, err2 := goBuild(worker, append([]string{"-tags", "verif"}, files...)...); err2 != nil {
+			fmt.Printf("BROKEN property=%s: worker does not build against /repo's working tree:\n%s\n%s\n", prop, out, out2)
+			return 2
+		}
+		fmt.Printf("note: full worker package does not build (%s); built this property's files only\n", oneLine(out, 200))
 	}
 	if prop == "C18" {
 		raceWkr = filepath.Join(workDir, "worker_race")
